@@ -50,6 +50,8 @@ def gen_objdef(rng, feat, placeholders=None):
         return {'class': 'tc_verif.lab.runtime.LabChainObj', 'kwargs': {'a': rng.choice([1, 'z', [1, 2]])}}
     if feat.get('set_objects') and rng.random() < 0.4:
         return {'class': 'tc_verif.lab.runtime.LabObjSet', 'kwargs': {'tags': rng.sample(['alpha', 'beta', 'gamma', 'delta', 'eps', 'zeta', 'eta'], rng.randint(2, 6))}}
+    if rng.random() < 0.12:
+        return {'class': 'tc_verif.lab.runtime.LabObjDerived', 'kwargs': {'root': rng.choice(['data/x', 'r'] + (['{' + placeholders[0] + '}/corpus'] if placeholders else []))}}
     if rng.random() < 0.7:
         kw = {'a': gen_value(rng, feat, 1, placeholders)}
         if rng.random() < 0.5:
